@@ -27,7 +27,7 @@ import ast
 from ..cfg import CFG
 from ..exctypes import ExcTypes
 from ..facts import TOP, const_of
-from ..model import Program, call_name, norm
+from ..model import Program, call_name, norm, expand_locals, single_assignment_locals
 from ..poly import Rat, eval_expr
 from ..report import AnalysisError
 from ..symexec import SymEnv
@@ -293,6 +293,24 @@ def rule_r3_r10(rep, program: Program):
         for n in ast.walk(f.node):
             if isinstance(n, ast.Assign) and isinstance(n.targets[0], ast.Name) and isinstance(n.value, ast.IfExp):
                 defs[n.targets[0].id] = n.value
+            # the same choice written as a statement: if <dir test>: a, b = x, y / else: a, b = y, x
+            if isinstance(n, ast.If) and n.orelse:
+                def arm_assigns(stmts):
+                    out = {}
+                    for st in stmts:
+                        if isinstance(st, ast.Assign) and len(st.targets) == 1:
+                            t = st.targets[0]
+                            if isinstance(t, ast.Name):
+                                out[t.id] = st.value
+                            elif isinstance(t, ast.Tuple) and isinstance(st.value, ast.Tuple) and len(t.elts) == len(st.value.elts):
+                                for x, v in zip(t.elts, st.value.elts):
+                                    if isinstance(x, ast.Name):
+                                        out[x.id] = v
+                    return out
+
+                a1, a2 = arm_assigns(n.body), arm_assigns(n.orelse)
+                for nm in set(a1) & set(a2):
+                    defs[nm] = ast.IfExp(test=n.test, body=a1[nm], orelse=a2[nm])
         calls = [n for n in ast.walk(f.node) if isinstance(n, ast.Call) and norm(n.func) == "self._merge_subtrees"]
         if len(calls) != 1:
             raise AnalysisError(f"{f.qualname}: expected one _merge_subtrees call")
@@ -457,11 +475,19 @@ def rule_r6(rep, program: Program):
     pops = {norm(n.targets[0]): norm(n.value) for n in ast.walk(sm.node) if isinstance(n, ast.Assign) and isinstance(n.value, ast.Call) and norm(n.value.func) == "stats.pop"}
     ok = False
     for a in avs:
-        v = a.value
-        if isinstance(v, ast.BinOp) and isinstance(v.op, ast.Div) and norm(v.right) == "stats['n_step']":
+        # the mean may sit in the non-degenerate arm of a conditional expression guarding n_step > 0
+        cands = [a.value]
+        if isinstance(a.value, ast.IfExp):
+            cands = [a.value.body, a.value.orelse]
+        for v in cands:
+            if not (isinstance(v, ast.BinOp) and isinstance(v.op, ast.Div) and norm(v.right) == "stats['n_step']"):
+                continue
             num = norm(v.left)
             if pops.get(num) == "stats.pop('sum_metrop_accept_prob')" or num == "stats['sum_metrop_accept_prob']":
                 ok = True
+            # zero-step guard (if present) must test the same counter
+            if isinstance(a.value, ast.IfExp) and "stats['n_step']" not in norm(a.value.test):
+                ok = False
     r.inst({"reported mean": [norm(a.value) for a in avs]})
     if not ok:
         r.violate(PROP, "sample:av_metrop_accept_prob", "the reported mean acceptance probability is not sum_metrop_accept_prob / n_step", node=sm.node, file=sm.file)
@@ -608,8 +634,9 @@ def rule_r9(rep, program: Program):
     okl = False
     if lu:
         e = SymEnv({})
-        val = e.ev(lu[0].value)
-        logs = [c for c in ast.walk(lu[0].value) if isinstance(c, ast.Call) and call_name(c) in ("np.log", "log", "math.log")]
+        lu_value = expand_locals(lu[0].value, {k2: v2 for k2, v2 in single_assignment_locals(f.node).items() if k2 != "aux_vars"})
+        val = e.ev(lu_value)
+        logs = [c for c in ast.walk(lu_value) if isinstance(c, ast.Call) and call_name(c) in ("np.log", "log", "math.log")]
         if logs and call_name(logs[0].args[0]).endswith("uniform") and not logs[0].args[0].args:
             lsym = [s for s in val.symbols() if s.startswith("log[")]
             if len(lsym) == 1 and val.equals(Rat.sym(lsym[0]) - Rat.sym("aux_vars['h_init']")):
